@@ -560,19 +560,18 @@ impl<Writer: Write> Mp4Writer<Writer> {
             .as_ref()
             .ok_or(Mp4WriterError::AudioNotEnabled)?;
 
+        // Validate everything first; the previous sample's duration is only patched once this
+        // frame is known to be accepted.
+        let mut delta: Option<u32> = None;
         if let Some(prev) = self.audio_prev_pts {
             if pts < prev {
                 return Err(Mp4WriterError::NonIncreasingTimestamp);
             }
-            let delta = pts - prev;
-            if delta > u64::from(u32::MAX) {
+            let d = pts - prev;
+            if d > u64::from(u32::MAX) {
                 return Err(Mp4WriterError::DurationOverflow);
             }
-            let delta = delta as u32;
-            if let Some(last) = self.audio_samples.last_mut() {
-                last.duration = Some(delta);
-            }
-            self.audio_last_delta = Some(delta);
+            delta = Some(d as u32);
         }
 
         // Process audio data based on codec
@@ -612,6 +611,13 @@ impl<Writer: Write> Mp4Writer<Writer> {
 
         if sample_data.len() > u32::MAX as usize {
             return Err(Mp4WriterError::DurationOverflow);
+        }
+
+        if let Some(delta) = delta {
+            if let Some(last) = self.audio_samples.last_mut() {
+                last.duration = Some(delta);
+            }
+            self.audio_last_delta = Some(delta);
         }
 
         self.audio_samples.push(SampleInfo {
